@@ -563,6 +563,9 @@ impl Wall {
     /// * `char_dim` - dimensión característica de la solera (B', según UNE-EN ISO 13370:2010 8.1), m
     /// * `psi_gnd_ext` - transmitancia térmica lineal de la solera considerando aislamiento perimetral, W/mK
     fn u_value_gnd_slab(&self, z: f32, d_t: f32, char_dim: f32, psi_gnd_ext: f32) -> f32 {
+        // B' se redondea a dos decimales y puede llegar como cero en soleras de superficie casi nula.
+        // Suponemos siempre un valor pequeño pero distinto de cero, como con el perímetro expuesto
+        let char_dim = char_dim.max(0.01);
         let B_limit = d_t + 0.5 * z;
         let U_bf = if B_limit < char_dim {
             // Soleras sin aislar y moderadamente aisladas (11)
